@@ -105,9 +105,9 @@ Example c08_nonvacuous_ok : exists x, ge 1 1 (fun _ _ => 2) 1 (fun _ => 6) (1 / 
 Proof. exact Proofs.Gauss.ex_ge_ok. Qed.
 (* ... the null-vector hypothesis is met by the all-ones 2x2 matrix, which is therefore refused ... *)
 Example c08_nonvacuous_singular : forall b : vec R, ge 2 2 (fun _ _ => 1) 2 b (1 / 1000) = Err ESingularMatrix.
-Proof. apply c08_singular_refused; [lra | exact Proofs.Gauss.ex_singular_hyp]. Qed.
+Proof. exact Proofs.Gauss.ex_singular_refused. Qed.
 (* ... and the very same Gallina term, run on IEEE doubles, solves a 2x2 system that needs the row swap
-   ([[1,2],[3,4]] x = [5,6] : x = [-4, 4.5]) *)
+   ([[1,2],[4,4]] x = [5,6] : x = [-2, 3.5]) *)
 Example c08_float_run :
-  @ge_lists float FNum [[1; 2]; [3; 4]]%float [5; 6]%float 0x1p-20%float = Ok [-4; 4.5]%float.
+  @ge_lists float FNum [[1; 2]; [4; 4]]%float [5; 6]%float 0x1p-20%float = Ok [-2; 3.5]%float.
 Proof. vm_compute. reflexivity. Qed.
